@@ -749,7 +749,7 @@ class SymClient(Client):
             return [s_a]
         if isinstance(r, FuncRef):
             fi = self.repo.func(r.module, r.qualname)
-            if _caching_decorator(fi):
+            if _caching_decorator(fi) and not self.repo.cached_value_factory(fi):
                 return [s]       # functools.lru_cache / cache: what the call returns is not what one run of the body builds
             if self.inline(fi) and self.depth < 6 and not _is_generator(fi.node):
                 key = '$ret:%d:%d' % (getattr(call, 'lineno', 0), getattr(call, 'col_offset', 0))
@@ -1398,6 +1398,11 @@ def _never_none(term: str) -> bool:
         return True
     if isinstance(e, ast.Subscript) and isinstance(e.slice, ast.Slice):
         return True
+    if isinstance(e, ast.Call):
+        # constructing an object (``uid.UID(x)``, ``PContextDef(..)``): class names are capitalised by convention here
+        last = e.func.attr if isinstance(e.func, ast.Attribute) else e.func.id if isinstance(e.func, ast.Name) else ''
+        if last[:1].isupper():
+            return True
     return False
 
 
